@@ -1790,6 +1790,78 @@ def selprep_tables(db, names=('pass_selprep', 'todo_selprep', 'cleanup_selprep')
     return out
 
 
+class ProgressHooks(SelprepHooks):
+    """X_do() for one scenario: does the daemon do anything at all?"""
+    def __init__(self, scen, recent):
+        super().__init__(0, scen)
+        self.recent = recent
+        self.idle = []
+        self.progress = 0
+
+    def _progress(self, E, x, args):
+        self.progress += 1
+        return 'noreturn'
+
+    prim_prioq_delmin = prim_getln = prim_readsubdir_next = prim_readdir = prim_del_start = prim_pqadd = prim_messdone = _progress
+
+    def prim_prioq_min(self, E, x, args):
+        q = g1v(args[0])
+        pe = g1v(args[1])
+        if not (isinstance(q, tuple) and q[0] == '&' and q[1] in self.DT and isinstance(pe, tuple) and pe[0] == '&'):
+            raise AnalysisBroken('progress: prioq_min() on an unknown queue %s' % (q,))
+        if self.scen['q'][q[1]]:
+            return [Outcome(ret=fs(1), sets={pe[1] + '.dt': fs(self.DT[q[1]]), pe[1] + '.id': fs(77)})]
+        return [Outcome(ret=fs(0))]
+
+    def prim_trigger_pulled(self, E, x, args):
+        return [Outcome(ret=fs(0))]
+
+    def on_return(self, E, fn, val):
+        if fn.name == self.entry:
+            self.idle.append(E.trace.list())
+
+
+def analyse_progress(db, rep):
+    """no busy loop: whenever an X_selprep asks select() to return at once (or names a time that has passed), the
+    matching X_do, run in the same state, does something"""
+    prog = db.program('qmail-send')
+    recent = 1000
+    out = {}
+    for sel, do in (('pass_selprep', 'pass_do'), ('cleanup_selprep', 'cleanup_do'), ('todo_selprep', 'todo_do')):
+        fn = prog.fn(do, 'qmail-send.c')
+        bad = None
+        ndue = 0
+        for sc in selprep_scenarios(sel):
+            if sel == 'cleanup_selprep':
+                scs = [dict(sc, exit=0), dict(sc, exit=1)]
+            else:
+                scs = [sc]
+            for sc_ in scs:
+                if sel == 'todo_selprep':
+                    sc_ = dict(sc_, nexttodorun=sc_['nexttodorun'] + 2000)       # not due by time: only the open scan asks for zero
+                if sel == 'cleanup_selprep':
+                    sc_ = dict(sc_, cleanuptime=sc_['cleanuptime'] + 2000)
+                exp = selprep_expected(sel, sc_, recent + 5000)
+                if exp > recent:
+                    continue
+                ndue += 1
+                H = ProgressHooks(sc_, recent)
+                H.entry = do
+                eng = Engine(db, prog, H)
+                store = {'G:recent': fs(recent), 'G:flagexitasap': fs(sc_['exit']), 'G:pass[0].id': fs(sc_['pass'][0]), 'G:pass[1].id': fs(sc_['pass'][1]),
+                         'G:tododir': fs(('&', 'DIR')) if sc_.get('tododir') else fs(0), 'G:nexttodorun': fs(sc_.get('nexttodorun', 0)),
+                         'G:flagcleanup': fs(sc_.get('cleanup', 0)), 'G:cleanuptime': fs(sc_.get('cleanuptime', 0))}
+                eng.run(fn, store)
+                if H.idle and bad is None:
+                    shown = {k: v for k, v in sc_.items() if v not in (0, (0, 0)) and k != 'q'}
+                    shown['queues with a due entry'] = [q for q, v in sc_['q'].items() if v]
+                    bad = ('in the state %s %s() asks select() to return at once (wake-up time %s, now %d) and %s() returns without doing anything: the daemon spins' % (shown, sel, exp, recent, do), H.idle[0])
+        if ndue < 1:
+            raise AnalysisBroken('%s: no due scenario' % sel)
+        out['progress:%s-due=>%s-acts' % (sel, do)] = (bad is None, 'qmail-send.c:' + do, bad[0] if bad else '%d due scenarios' % ndue, bad[1] if bad else [])
+    return out
+
+
 def selprep_sites(db):
     """C16 timeout computation: the three tables and main()'s use of the result"""
     prog = db.program('qmail-send')
